@@ -21,6 +21,8 @@ def run(prog, rep, tier='quick'):
         'rows and P columns; (accumulation) the pseudo-spectrum accumulates |FFT_NFFT(v_I)|^2 over I = NSIG..P-1, indexes the '
         'singular-value weight of EV with the same I, and is inverted once; exponents MUSIC 0 / EV 1 (with C03) and the bin '
         'order (with C02). NOT decided: peak locations, number of non-negligible singular values, positivity (numerical).')
+    rep.rule('admission', 'no guard on (N, P, NSIG) raises for N >= 2P, 1 <= NSIG < P')
+    rep.rule('forwarding', 'music() / ev(): the eigen() call receives X, P, NSIG, threshold, NFFT, criteria, verbose unchanged and the matching method')
     rep.rule('validation', 'constant-argument contexts on both sides of each documented bound')
     rep.rule('selection', 'aic_eigen / mdl_eigen called iff NSIG is None and threshold is None, and matching `criteria`')
     rep.rule('singular-values', 'returned S is svd(FB)[1]; FB has shape (2*NP, P)')
@@ -213,5 +215,63 @@ def run(prog, rep, tier='quick'):
                                   % ('filled with %s' % fill if fill is not None else 'unspecified contents', fill if fill is not None else 'arbitrary'), loc(f.mod, e[1]))
         if isinstance(v, Tup):
             check_sink(rep, 'accumulation', f.qname, method, 'pseudo-spectrum', v.items[0], {'s': F(d)}, where)
+    # N >= 2P, P > NSIG >= 1 is admitted
+    from ..d1rules import admission_of
+    seen_adm = set()
+    grid = [{'N': n_, 'Pa': p_, 'Ka': k_} for n_ in (8, 13, 20) for p_ in range(2, n_ // 2 + 1) for k_ in range(1, p_)]
+    for meth_ in ('music', 'ev'):
+        admission_of(rep, prog, 'admission', 'eigenfre', 'eigen',
+                     lambda: ([C.data(True, phase=False), IntV(Aff.sym('Pa'), frozenset(['order']))],
+                              {'NSIG': IntV(Aff.sym('Ka'), frozenset(['NSIG'])), 'method': Const(meth_), 'NFFT': C.nfft('even')}), grid,
+                     lambda w: 'N = %d, P = %d, NSIG = %d' % (w['N'], w['Pa'], w['Ka']), seen_adm)
+    # the functional wrappers music() / ev() are eigen() with the method fixed: every other argument arrives unchanged
+    eg = prog.func('eigenfre', 'eigen')
+    n_w = 0
+    for wname in ('music', 'ev'):
+        w_ = prog.func('eigenfre', wname)
+        for given in ('NSIG', 'threshold'):
+            itp = C.new_interp(prog)
+            itp.watch[eg.qname] = []
+            xx = C.data(True, phase=False)
+            pp = C.symint('P', 2, 'order')
+            nf = C.nfft('even')
+            kw = {'NFFT': nf, 'criteria': Const('mdl'), 'verbose': Const(False)}
+            if given == 'NSIG':
+                kw['NSIG'] = C.symint('K', 1, 'nsig')
+            else:
+                kw['threshold'] = C.deg0(label='threshold')
+            try:
+                C.run_function(prog, 'eigenfre', wname, [xx, pp], kw, itp=itp)
+            except AnalysisError:
+                pass
+            n_w += 1
+            ctx = '%s given' % given
+            calls = itp.watch[eg.qname]
+            if len(calls) != 1:
+                rep.undecided('forwarding', w_.qname, ctx, 'expected one eigen call, saw %d' % len(calls), loc(w_.mod, w_.node))
+                continue
+            pr = calls[0]['params']
+            bad_ = []
+            def same_(a_, b_):
+                if isinstance(a_, Num) and isinstance(b_, Num):
+                    return a_.uid == b_.uid
+                if isinstance(a_, IntV) and isinstance(b_, IntV):
+                    return a_.a is not None and a_.a == b_.a
+                if isinstance(a_, Const) and isinstance(b_, Const):
+                    return a_.v == b_.v
+                return False
+            want = {'X': xx, 'P': pp, 'NFFT': nf, 'criteria': kw['criteria'], 'verbose': kw['verbose'],
+                    'NSIG': kw.get('NSIG', Const(None)), 'threshold': kw.get('threshold', Const(None)), 'method': Const(wname)}
+            for k_, v_ in want.items():
+                if not same_(pr.get(k_), v_):
+                    bad_.append(k_)
+            if bad_:
+                rep.violation('forwarding', w_.qname, ctx, '%s() does not hand its %s to eigen() unchanged: the value the caller gave is '
+                              'ignored (or replaced by a default), so validation and subspace selection run on other settings'
+                              % (wname, bad_), loc(w_.mod, w_.node))
+            else:
+                rep.proved('forwarding', w_.qname, ctx, 'X, P, NSIG, threshold, NFFT, criteria, verbose forwarded; method=%r' % wname,
+                           loc(w_.mod, w_.node))
+    rep.floor('wrapper contexts', n_w, 4)
     rep.floor('validation cases', n_v, 10)
     rep.floor('selection cases', n_s, 5)
